@@ -125,6 +125,14 @@ class PList:
         return f"PList({self.items})"
 
 
+class SliceObj:
+    """slice(a, b, c) as a value: the attributes mirror ast.Slice (lower / upper / step) but hold values, not nodes"""
+    __slots__ = ("lower", "upper", "step")
+
+    def __init__(self, lower, upper, step):
+        self.lower, self.upper, self.step = lower, upper, step
+
+
 class PIter:
     """iterator over an already materialised list of items (iter(), generators run eagerly)"""
     __slots__ = ("items", "pos")
